@@ -34,6 +34,21 @@ type Env struct {
 
 var pkgByPath = map[string]*types.Package{}
 
+// importAliases[pkgPath][localName] = import path, taken from the import
+// declarations of the package's source files (so that contracts can use the
+// same package aliases as the code).
+var importAliases = map[string]map[string]string{}
+
+func importMatches(pkg, imp *types.Package, name string) bool {
+	if imp.Name() == name {
+		return true
+	}
+	if m := importAliases[pkg.Path()]; m != nil {
+		return m[name] == imp.Path()
+	}
+	return false
+}
+
 type evalError struct{ msg string }
 
 func efail(format string, a ...any) { panic(evalError{fmt.Sprintf(format, a...)}) }
@@ -416,7 +431,7 @@ func (e *Env) selector(x *ESel) Val {
 			}
 			if !isLocal {
 				for _, imp := range e.pkg.Imports() {
-					if imp.Name() == id.Name {
+					if importMatches(e.pkg, imp, id.Name) {
 						obj := imp.Scope().Lookup(x.Name)
 						if obj == nil {
 							efail("%s.%s not found", id.Name, x.Name)
@@ -840,7 +855,7 @@ func (c *Ctx) resolveTypeAST(x ast.Expr, pkg *types.Package) (types.Type, Sort) 
 	case *ast.SelectorExpr:
 		if id, ok := x.X.(*ast.Ident); ok && pkg != nil {
 			for _, imp := range pkg.Imports() {
-				if imp.Name() == id.Name {
+				if importMatches(pkg, imp, id.Name) {
 					if obj := imp.Scope().Lookup(x.Sel.Name); obj != nil {
 						if tn, ok := obj.(*types.TypeName); ok {
 							return tn.Type(), c.sortOf(tn.Type())
@@ -947,13 +962,49 @@ func (c *Ctx) specSig(sf *SpecFunc) *specSig {
 	return s
 }
 
+// initGhosts gives ghost attributes declared with a default ("ghost g(p *T) R = v")
+// their default value on a freshly allocated object of type T.
+func (c *Ctx) initGhosts(st *State, ref Term, elem types.Type) {
+	for _, name := range sortedKeys(c.db.specs) {
+		sf := c.db.specs[name]
+		if !sf.Ghost || sf.Body == nil || len(sf.Params) != 1 {
+			continue
+		}
+		func() {
+			defer func() {
+				if r := recover(); r != nil {
+					if _, ok := r.(evalError); !ok {
+						panic(r)
+					}
+				}
+			}()
+			sig := c.specSig(sf)
+			pt, ok := sig.ptypes[0].(*types.Pointer)
+			if sig.ptypes[0] == nil || !ok || !types.Identical(pt.Elem(), elem) {
+				return
+			}
+			env := &Env{c: c, vars: map[string]Val{}, pkg: pkgByPath[sf.Pkg], st: st}
+			v := env.coerce(env.eval(sf.Body), Val{T: T(sig.result, ""), GT: sig.rtype})
+			key := c.ghostKey(sf)
+			c.set(st, key, tStore(c.get(st, key), ref, v.T))
+		}()
+	}
+}
+
 func (c *Ctx) ghostKey(sf *SpecFunc) string {
 	sig := c.specSig(sf)
 	s := sig.result
 	for i := len(sig.params) - 1; i >= 0; i-- {
 		s = arrSort(sig.params[i], s)
 	}
-	return c.ghostComp(sf.Name, s)
+	key := c.ghostComp(sf.Name, s)
+	if len(sig.ptypes) > 0 && sig.ptypes[0] != nil {
+		switch sig.ptypes[0].Underlying().(type) {
+		case *types.Pointer, *types.Map, *types.Chan:
+			c.refKeyedGhost[key] = true
+		}
+	}
+	return key
 }
 
 func (c *Ctx) declareSpec(sf *SpecFunc) {
